@@ -1925,11 +1925,14 @@ class Cluster(object):
                 future = session.add_or_renew_pool(host, is_host_addition=False)
                 if future is not None:
                     have_future = True
-                    future.add_done_callback(callback)
                     futures.add(future)
+            # the callback decides that every pool is ready by looking at `futures`: register it
+            # only once the set is complete (a future that is already done runs it immediately)
+            for future in tuple(futures):
+                future.add_done_callback(callback)
         except Exception:
             log.exception("Unexpected failure handling node %s being marked up:", host)
-            for future in futures:
+            for future in tuple(futures):
                 future.cancel()
 
             self._cleanup_failed_on_up_handling(host)
